@@ -59,7 +59,7 @@ def c17(pid, tier, seed):
     q = tier == "quick"
     allkinds = {"read", "write", "read_vectored", "write_vectored", "poll_read", "poll_write", "poll_write_vectored"}
     allpaths = {"consumer", "unindexed", "producer", "producer_rev"}
-    base = dict(Fam="io", D=2, Kinds={"read"}, N=3, Mode="leaf", Paths={"consumer"}, Rich=False)
+    base = dict(Fam="io", D=2, Kinds={"read"}, N=3, Mode="leaf", Paths={"consumer"}, Rich=False, Caps={0})
     gens = [("scripts", "MC_Adaptors", dict(base, Fam="script", D=4 if q else 6, Kinds=allkinds), "bfs"),
             ("io_pairs", "MC_Adaptors", dict(base, Fam="io", D=2, Rich=not q), "bfs"),
             ("io_deep", "MC_Adaptors", dict(base, Fam="io", D=12, Rich=True), ("sim", 300 if q else 4000, 16)),
@@ -69,7 +69,10 @@ def c17(pid, tier, seed):
             ("iterator", "MC_Adaptors", dict(base, Fam="iter", D=3 if q else 4, Rich=not q), "bfs"),
             ("stream", "MC_Adaptors", dict(base, Fam="stream", D=4 if q else 6, Rich=not q), "bfs"),
             ("rayon_leaf_orders", "MC_Adaptors", dict(base, Fam="par", N=4, Mode="leaf", Paths=allpaths, Rich=True), "bfs"),
-            ("rayon_interleaved", "MC_Adaptors", dict(base, Fam="par", N=3 if q else 4, Mode="fine", Paths=allpaths), "bfs")]
+            ("rayon_interleaved", "MC_Adaptors", dict(base, Fam="par", N=3 if q else 4, Mode="fine", Paths=allpaths), "bfs"),
+            # Folder::consume_iter, also into base folders that report full() after one or two items (short-circuiting consumers): the bar
+            # advances by what the base folder took
+            ("rayon_full_folders", "MC_Adaptors", dict(base, Fam="par", N=4 if q else 5, Mode="leaf", Paths={"consumer", "unindexed"}, Caps={0, 1, 2}), "bfs")]
     if not q:
         gens.insert(2, ("io_triples", "MC_Adaptors", dict(base, Fam="io", D=3), "bfs"))
         gens.append(("rayon_leaf_orders_6", "MC_Adaptors", dict(base, Fam="par", N=6, Mode="leaf", Paths={"producer", "consumer"}), "bfs"))
